@@ -47,9 +47,16 @@ func genC12(tier string, seed int64) []core.Case {
 	r := rand.New(rand.NewSource(seed*179424673 + 12))
 	var cs []core.Case
 	for i := 0; i < nrace; i++ {
-		cs = append(cs, core.Case{ID: fmt.Sprintf("race%04d", i), Kind: "conc-race", Seed: r.Int63(),
+		c := core.Case{ID: fmt.Sprintf("race%04d", i), Kind: "conc-race", Seed: r.Int63(),
 			S: map[string]string{"delay": gen.DelayProfiles[r.Intn(len(gen.DelayProfiles))]},
-			N: map[string]int64{"clients": int64(3 + r.Intn(5)), "txns": int64(6 + r.Intn(9)), "racebuild": 1}})
+			N: map[string]int64{"clients": int64(3 + r.Intn(5)), "txns": int64(6 + r.Intn(9)), "racebuild": 1}}
+		if i%2 == 0 {
+			c.N["deflog"] = 1
+		}
+		if i%4 == 1 {
+			c.N["sibling"] = 1
+		}
+		cs = append(cs, c)
 	}
 	for i := 0; i < nplain; i++ {
 		c := core.Case{ID: fmt.Sprintf("conc%04d", i), Kind: "conc", Seed: r.Int63(),
@@ -62,6 +69,12 @@ func genC12(tier string, seed int64) []core.Case {
 		}
 		if i == 0 {
 			c.N["sample"] = 1
+		}
+		if i%3 == 0 {
+			c.N["deflog"] = 1
+		}
+		if i%5 == 2 {
+			c.N["sibling"] = 1
 		}
 		cs = append(cs, c)
 	}
